@@ -180,6 +180,10 @@ def circumsphere(pts):
         return fast_3d_circumcircle(pts)
 
     # Modified method from http://mathworld.wolfram.com/Circumsphere.html
+    # Like the 2D and 3D versions, work relative to the first point: far from
+    # the origin the determinants below cancel catastrophically.
+    x0 = pts[0]
+    pts = [subtract(pt, x0) for pt in pts]
     mat = array([[np_sum(square(pt)), *pt, 1] for pt in pts])
     center = zeros(dim)
     a = 1 / (2 * ndet(mat[:, 1:]))
@@ -192,13 +196,10 @@ def circumsphere(pts):
         center[i - 1] = factor * ndet(mat[:, ind])
         factor *= -1
 
-    # Use subtract as we don't know the type of x0.
-    x0 = pts[0]
-    vec = subtract(center, x0)
-    # Vector norm.
-    radius = sqrt(dot(vec, vec))
+    # Vector norm (the first point is the origin now).
+    radius = sqrt(dot(center, center))
 
-    return tuple(center), radius
+    return tuple(center + x0), radius
 
 
 def orientation(face, origin):
